@@ -30,11 +30,11 @@ type StoreObs struct {
 
 // LogEntry mirrors raft.Log.
 type LogEntry struct {
-	Index uint64 `json:"i"`
-	Term  uint64 `json:"t"`
-	Type  uint8  `json:"ty"`
-	Data  []byte `json:"d"`
-	Ext   []byte `json:"x"`
+	Index uint64  `json:"i"`
+	Term  uint64  `json:"t"`
+	Type  uint8   `json:"ty"`
+	Data  []byte  `json:"d"`
+	Ext   []byte  `json:"x"`
 	Nil   [2]bool `json:"nil"` // Data / Extensions are nil (not empty)
 }
 
@@ -168,4 +168,5 @@ type Resp struct {
 	Done      bool              `json:"done,omitempty"`
 	Emitted   int               `json:"emitted,omitempty"` // snapshots seen on the node's snapshots channel
 	Bad       int               `json:"bad,omitempty"`
+	URL       string            `json:"url,omitempty"` // node-mgmt: base URL of the management API
 }
